@@ -90,8 +90,30 @@ structure WUpdate where
 def updAt (m : List WUpdate) (w : Nat) (f : WUpdate → WUpdate) : List WUpdate :=
   if m.any (·.w == w) then m.map fun u => if u.w == w then f u else u else m ++ [f { w := w }]
 
+/-- the creation filter of a single-node placement variable in `solver.rs`: the worker has a single-node
+assignment, the (request, variant) is not blocked there, and the worker lives long enough for the time request -/
+def State.placementAllowed (s : State) (now : Nat) (rq v : Nat) (r : Rq) (w : Nat) : Bool :=
+  match s.worker? w with
+  | none => false
+  | some wk =>
+    (match wk.assign with | .sn .. => true | .mn .. => false) &&
+    !wk.blocked.contains (rq, v) &&
+    (match wk.termination with
+     | some t => now + r.minTime ≤ t
+     | none => true)
+
+/-- does the request fit into the free vector without saturation (the per-worker resource rows of the MILP)? -/
+def fitsNow (free : List Nat) (es : List RqEntry) : Bool :=
+  es.all fun e => e.res < free.length && (match e.pol with
+    | .amount a => a ≤ getD free e.res
+    | .all => true)
+
 /-- one placed single-node task of `create_task_mapping` -/
 def State.placeSn (s : State) (m : List WUpdate) (v : Nat) (r : Rq) (id : TaskId) (w : Nat) : M (State × List WUpdate) :=
+  -- the solver's resource rows: the placement fits into what is free right now (no saturation)
+  if (match s.worker? w with
+      | some wk => (match wk.assign with | .sn _ free _ => !fitsNow free r.entries | .mn .. => false)
+      | none => false) then .error (.panic "!bad-choice placement-overbooks") else
   match s.withWorker w (·.insertSn id r) with
   | .error e => .error e
   | .ok s1 =>
@@ -138,12 +160,14 @@ structure SnEntry where
   taken : List TaskId
   deriving Repr
 
-def State.mapSn (s : State) (m : List WUpdate) : List SnEntry → M (State × List WUpdate)
+def State.mapSn (s : State) (now : Nat) (m : List WUpdate) : List SnEntry → M (State × List WUpdate)
   | [] => .ok (s, m)
   | e :: rest =>
     match s.rq e.rq e.v with
     | .error err => .error err
     | .ok r =>
+      if !(e.counts.all fun (p : Nat × Nat) => p.2 == 0 || s.placementAllowed now e.rq e.v r p.1) then
+        .error (.panic "!bad-choice placement-not-allowed") else
       let sum := (e.counts.map (·.2)).sum
       match s.queues[e.rq]? with
       | none => .error (.panic "task_queues.index")
@@ -154,7 +178,7 @@ def State.mapSn (s : State) (m : List WUpdate) : List SnEntry → M (State × Li
           let s1 := { s with queues := s.queues.set e.rq q' }
           match s1.placeAll m e.v r (deal (e.taken.length + 1) e.counts e.taken []) with
           | .error err => .error err
-          | .ok (s2, m2) => State.mapSn s2 m2 rest
+          | .ok (s2, m2) => State.mapSn s2 now m2 rest
 
 /-- stable sort of the assigned list by descending priority (`sort_by_key(Reverse(priority))`) -/
 def insertByPrio (prio : TaskId → Int) (x : TaskId × Nat) : List (TaskId × Nat) → List (TaskId × Nat)
@@ -316,6 +340,8 @@ def State.proactive (s : State) (m : List WUpdate) (orders : List (Nat × List N
         | .ok (s1, m1) => next s1 m1
 
 structure Solution where
+  /-- `now` of the scheduling round in ms -/
+  now : Nat := 0
   sn : List SnEntry := []
   mn : List MnEntry := []
   prefillOrders : List (Nat × List Nat) := []
@@ -359,7 +385,7 @@ def mnMsgs (s : State) : List TaskId → M (List Msg)
 
 /-- `create_task_mapping` + `send_messages` -/
 def State.schedule (s : State) (sol : Solution) : M (State × Out) :=
-  match s.mapSn [] sol.sn with
+  match s.mapSn sol.now [] sol.sn with
   | .error e => .error e
   | .ok (s1, m1) =>
     let prio (id : TaskId) : Int := match s1.task? id with | some t => t.prio | none => 0
